@@ -1,7 +1,10 @@
-(* C13 — value JSON round-trips without loss (on JSON trees; bytes <-> tree is encoding/json).
-   Proofs: Proofs/ValueJsonProofs.v. *)
+(* C13 — value, entity and entity-map JSON round-trips without loss (on JSON trees; bytes <-> tree is encoding/json).
+   Models: Impl/ValueJson.v (values, tied by jsonenc / jsondec), Impl/EntityJson.v (entities and entity maps, tied by ejsonenc / ejsondec).
+   Proofs: Proofs/ValueJsonProofs.v, Proofs/EntityJsonProofs.v.
+   Requests and diagnostics, and schema-guided coercion of implicit spellings, are decided by the direct oracle of the check only. *)
 From Coq Require Import ZArith List Bool Permutation.
-From Cedar Require Import Base.Json Lang.Value Impl.IPAddr Impl.ValueJson Proofs.ValueProofs Proofs.ValueJsonProofs.
+From Cedar Require Import Base.Json Lang.Value Lang.Expr Impl.IPAddr Impl.ValueJson Impl.PolicyJson Impl.EntityJson Proofs.ValueProofs Proofs.ValueJsonProofs
+  Proofs.EntityJsonProofs.
 
 Section C13.
   Variable print_ip : bool -> Z -> Z -> str.           (* net/netip's printer: not modelled *)
@@ -21,7 +24,37 @@ Section C13.
   Theorem C13_type_tags_preserved : forall v v', json_safe ip_ok v = true ->
     decode_value (encode_value print_ip ord v) = Some v' -> type_tag v' = type_tag v.
   Proof. exact (decode_type_faithful print_ip ord ord_perm ip_ok ip_roundtrip). Qed.
+
+  (* ---- entities and entity maps ---- *)
+  Variable ukey : uid -> str.                          (* EntityUID.String(), the sort key of EntityMap.MarshalJSON: any injective key *)
+  Hypothesis ukey_inj : forall a b, ukey a = ukey b -> a = b.
+
+  (* decoding the encoding of an entity map yields the same entities - same uid, same parents (listed in sorted order), attributes and
+     tags equal as values - in the sorted order of the encoding.  store_wf: distinct uids, duplicate-free parents, attrs and tags json_safe
+     with plain keys (keys_plain: a limitation of the model's decoder domain, see EntityJsonProofs.v) *)
+  Theorem C13_entity_map_roundtrip : forall m, store_wf ip_ok m ->
+    exists m', dec_entity_map (enc_entity_map print_ip ord ukey m) = DOk m' /\ Forall2 entity_equiv (sort_entities ukey m) m'.
+  Proof. exact (dec_enc_entity_map print_ip ord ord_perm ip_ok ip_roundtrip ukey). Qed.
+
+  (* encoding is stable across a second round trip *)
+  Theorem C13_entity_map_second_encoding : forall m m', store_wf ip_ok m -> (forall l, ord l = l) ->
+    dec_entity_map (enc_entity_map print_ip ord ukey m) = DOk m' ->
+    enc_entity_map print_ip ord ukey m' = enc_entity_map print_ip ord ukey m.
+  Proof. exact (second_encoding_identical print_ip ord ord_perm ip_ok ip_roundtrip ukey). Qed.
+
+  (* all accepted spellings of the uids and parents (implicit {type,id}, explicit {__entity:{..}}, any mixture) decode to the same store *)
+  Theorem C13_entity_spellings : forall sp m, spelling print_ip ord sp -> store_wf ip_ok m ->
+    dec_entity_map (enc_entity_map_sp print_ip ord ukey sp m) = dec_entity_map (enc_entity_map print_ip ord ukey m).
+  Proof. exact (dec_entity_map_spelling print_ip ord ord_perm ip_ok ukey). Qed.
+
+  (* the document does not depend on the order in which the map is traversed *)
+  Theorem C13_entity_map_order_independent : forall m1 m2, NoDup (map fst m1) -> Permutation m1 m2 ->
+    enc_entity_map print_ip ord ukey m1 = enc_entity_map print_ip ord ukey m2.
+  Proof. exact (enc_entity_map_perm print_ip ord ukey ukey_inj). Qed.
 End C13.
+
+Theorem C13_entity_decoder_total : forall j, dec_entity_map j <> DFuel.
+Proof. exact dec_entity_map_total. Qed.
 
 (* the unrestricted statement is refuted: a record shaped like the escape decodes as the escape (known finding F17) *)
 Theorem C13_roundtrip_full_refuted : forall print_ip ord,
@@ -32,3 +65,8 @@ Print Assumptions C13_value_json_roundtrip.
 Print Assumptions C13_value_json_identity_order.
 Print Assumptions C13_type_tags_preserved.
 Print Assumptions C13_roundtrip_full_refuted.
+Print Assumptions C13_entity_map_roundtrip.
+Print Assumptions C13_entity_map_second_encoding.
+Print Assumptions C13_entity_spellings.
+Print Assumptions C13_entity_map_order_independent.
+Print Assumptions C13_entity_decoder_total.
